@@ -134,7 +134,8 @@ def parseTFee (bps mx : String) : Option (Option TFee) := do
     current state (read-only); vault balances as the fixture funds them (capped at u64::MAX / 4) -/
 def xswapLine (s : HistState) (t : List String) : Option String :=
   match t with
-  | [ver, amount, thrMode, limit, ein, dir, bA, mA, _fA, bB, mB, _fB, te] => do
+  -- `_pk`: how the tick arrays are packaged into the instruction's accounts (order, supplemental arrays): no influence
+  | [ver, amount, thrMode, limit, ein, dir, bA, mA, _fA, bB, mB, _fB, te, _pk] => do
     let te ← (if te == "1" then some true else if te == "0" then some false else none)
     let ver ← ver.toNat?
     let amount ← amount.toNat?
